@@ -185,10 +185,58 @@ def empty_table_stream(ctx, n):
         shutil.rmtree(d, ignore_errors=True)
 
 
+def unicode_stream(ctx, n):
+    """field names, file names and string values outside ASCII: the report is still well-formed for the parser (whatever
+    encoding its declaration names, the bytes must match it) and carries the names unchanged"""
+    rng = ctx.rng
+    pool = ["\u0394p", "temp\u00e9rature", "\u03c1_w", "Str\u00f6mung", "\u5727\u529b", "x"]
+    for i in range(n):
+        names = rng.sample(pool, rng.randint(2, 4))
+        differs = rng.random() < 0.5
+        d = os.path.join(str(ctx.workdir), f"uni{i}")
+        fname = rng.choice(["r\u00e9sultats.csv", "t.csv", "\u30c7\u30fc\u30bf.csv"])
+        for side in ("res", "ref"):
+            os.makedirs(os.path.join(d, side))
+            with open(os.path.join(d, side, fname), "w", encoding="utf-8") as f:
+                f.write(",".join(names) + "\n")
+                for r in range(2):
+                    f.write(",".join(str(r + 0.5 + j + (1.0 if differs and side == "ref" and j == 0 and r == 1 else 0.0))
+                                     for j in range(len(names))) + "\n")
+        for mode in ("file", "dir"):
+            jp = os.path.join(d, f"report_{mode}.xml")
+            args = ([mode, os.path.join(d, "res", fname), os.path.join(d, "ref", fname)] if mode == "file"
+                    else [mode, os.path.join(d, "res"), os.path.join(d, "ref")])
+            args += ["--read-as", c04.DSV_OPT if mode == "file" else c12.READ_AS_CSV, "--verbosity", "0", "--junit-xml", jp]
+            with warnings.catch_warnings():
+                warnings.simplefilter("ignore")
+                rc, log, exc = run_cli(args)
+            sc = {"unicode": {"mode": mode, "names": names, "file": fname, "differs": differs}}
+            ctx.case(sc, True, sample={"scenario": sc, "exit": rc, "escaped": exc})
+            ctx.count(f"stream:non-ascii names:{mode}")
+            if exc is not None:
+                ctx.violation("E4", f"{mode} mode: exception escaped with non-ASCII names: {exc}", sc)
+            elif os.path.exists(jp):
+                try:
+                    suites = parse_junit(jp)
+                except Exception as e:  # noqa: BLE001
+                    ctx.violation("E4", f"{mode} mode: report is not well-formed XML when names are outside ASCII: {e}", sc)
+                    continue
+                check_wellformed(ctx, f"{mode} mode (non-ASCII names)", sc, suites, rc)
+                reported = {c[0] for s_ in suites for c in s_["cases"]}
+                if not set(names) <= reported:
+                    ctx.violation("E4", f"{mode} mode: field names {sorted(set(names) - reported)} are not among the report's test cases "
+                                        f"{sorted(reported)}", sc)
+                if (rc != 0) != differs:
+                    ctx.violation("E4", f"{mode} mode: exit status {rc} although the tables {'differ' if differs else 'are equal'}", sc)
+            ctx.traces_validated += 1
+        shutil.rmtree(d, ignore_errors=True)
+
+
 def run(ctx):
     ctx.prove()
     q = ctx.tier == "quick"
     empty_table_stream(ctx, 12 if q else 300)
+    unicode_stream(ctx, 12 if q else 300)
     file_stream(ctx, 900 if q else 25000)
     seq_stream(ctx, 150 if q else 4000)
     dir_stream(ctx, 150 if q else 4000)
